@@ -40,6 +40,7 @@ HAND = [
     ("suffix-check-dropped-at-end", "C18", "nemoguardrails/streaming.py", "        if self.current_chunk:\n            if self.suffix and self.current_chunk.endswith(self.suffix):\n                self.current_chunk = self.current_chunk[: -1 * len(self.suffix)]", "        if self.current_chunk:\n            if self.suffix and len(self.current_chunk) > 1 and self.current_chunk.endswith(self.suffix):\n                self.current_chunk = self.current_chunk[: -1 * len(self.suffix)]"),
     ("options-output-ignored-after-dialog-off", "C16", "nemoguardrails/rails/llm/llm_flows.co", "    if $generation_options.rails.output == False\n      create event StartUtteranceBotAction(script=$user_message)", "    if $generation_options.rails.output == False or $generation_options.rails.retrieval == False\n      create event StartUtteranceBotAction(script=$user_message)"),
     ("bot-message-rendered-as-template", "C17", "nemoguardrails/actions/llm/generation.py", "            text = result.strip()\n            if text.startswith('\"'):\n                text = text[1:-1]", "            text = self._render_string(result.strip(), {})\n            if text.startswith('\"'):\n                text = text[1:-1]"),
+    ("no-restart-after-abort-with-scores", "C06", "nemoguardrails/colang/v2_x/runtime/statemachine.py", "        and not flow_state.new_instance_started\n        and not failed_while_starting\n    ):", "        and not flow_state.new_instance_started\n        and not failed_while_starting\n        and len(matching_scores) < 2\n    ):"),
     ("while-offset-off-by-one", "C14", "nemoguardrails/colang/v1_0/runtime/sliding.py", None, None),
 ]
 
